@@ -371,7 +371,8 @@ def judge(ctx, n, q, req, ans, model_ans, stats):
             detail = "only %d task(s) for a queue of %d, yet the run hangs: %s" % (ntasks, q, detail)
         return kind, inp, detail, False
     if outcome in ("value", "error") and ans.get("stdout") != want:
-        return "wrong-result", inp, "stdout %r, expected %r" % (ans.get("stdout"), want), False
+        return ("wrong-result", inp, "stdout %r, expected %r (result=%r ms=%s records=%s quiet=%s)" % (
+            ans.get("stdout"), want, ans.get("result"), ans.get("ms"), ans.get("nev"), ans.get("quiet")), False)
     m = re.search(r"queue=(\d+) .*lost=(\d+) busy=(\S*)", model_ans)
     if terminated and m and (int(m.group(1)) != 0 or int(m.group(2)) != 0 or m.group(3)):
         return "residue", inp, "terminated run leaves queue/lost continuations: " + model_ans[:300], False
@@ -427,6 +428,51 @@ def mkreq(rid, prog, seed):
             "_prog": prog, "_want": want, "_ntasks": nt}
 
 
+PROBE_IR = {"funcs": [{"body": [["s", 1, 1], ["a", 0], ["a", 0]], "throws": False},
+                      {"body": [["t"], ["n", 2]], "throws": False}], "roots": [[0, 1]]}
+
+
+def probe_steps(ctx):
+    """Probe of the micro-step order (tie P): one canonical execution — pool 1, queue 256, no yields — of a
+    task that awaits an unsettled promise (suspend path), is resumed, and awaits it again (ready path).
+    The per-goroutine sequences of record kinds are written to lean/ElkVerif/Gen/AwaitSteps.lean; the
+    theorem `C16.awaitSteps_ok` (by `decide`) compares them with the model's constants."""
+    import os
+    seqs = None
+    for attempt in range(3):
+        req = mkreq("probe", PROBE_IR, 0)
+        req["timeout_ms"] = 8000
+        a = prun([req], 1, 256)[0]
+        if a.get("outcome") != "value" or not a.get("quiet"):
+            continue
+        ev = parse_events(a.get("events", ""))
+        actors = []
+        for e in ev:
+            if e[1] not in actors:
+                actors.append(e[1])
+        per = {x: [e[0] for e in ev if e[1] == x] for x in actors}
+        worker = per.get("0", [])
+        others = sorted((v for k, v in per.items() if k != "0"), key=lambda v: (v[:1] != ["add"], v))
+        seqs = (worker, others)
+        break
+    if seqs is None:
+        ctx.obligation("probe of the await micro-step order ran", False, "probe", "the canonical program did not finish")
+        return
+    worker, others = seqs
+    main = others[0] if others else []
+    settler = others[1] if len(others) > 1 else []
+    q = lambda l: "[" + ", ".join('"%s"' % x for x in l) + "]"
+    txt = ("-- GENERATED by checks/c16.py probe_steps from one canonical execution of the real runtime (hook H2);\n"
+           "-- regenerated on every run, rewritten only when it differs.\n"
+           "namespace Elk.Gen\n"
+           "def awaitWorker : List String := %s\n"
+           "def awaitMain : List String := %s\n"
+           "def awaitSettler : List String := %s\n"
+           "end Elk.Gen\n") % (q(worker), q(main), q(settler))
+    changed = vlib.write_if_changed(os.path.join(vlib.LEAN, "ElkVerif", "Gen", "AwaitSteps.lean"), txt)
+    ctx.extra["probe_awaitsteps_changed"] = bool(changed)
+
+
 def corpus_programs():
     out = []
     for l in vlib.corpus_lines("C16"):
@@ -438,11 +484,13 @@ def run(ctx):
     ctx.rule = ("generated async programs (DAG of async functions: start task / await started task, possibly twice or "
                 "never / await timeout / throw) run under pool×queue configurations with seeded yield points; "
                 "distinct = distinct (program, configuration, seed); non-trivial = at least one await of a started task")
-    ctx.prove("ElkVerif.Props.C16")
     ok, log = vlib.build_harness()
     if not ok:
         ctx.obligation("harness build", False, "build", log[-500:])
+        ctx.prove("ElkVerif.Props.C16")
         return
+    probe_steps(ctx)
+    ctx.prove("ElkVerif.Props.C16")
     stats = {"validated": 0}
     if ctx.replay:
         rp = json.load(open(ctx.replay))["input"]
@@ -499,10 +547,16 @@ def run(ctx):
             kind, inp, detail, no_input = j
             if kind in ("crash", "wrong-result", "residue") and not ctx.replay:
                 # confirm on a fresh worker (a dying worker under load must not become an alarm)
-                again = prun([req], n, q)
-                mod2 = vlib.run_model(["pr\ttrace\t%d\t%d\t%s" % (n, q, again[0].get("events", ""))])[0]
-                j2 = judge(ctx, n, q, req, again[0], mod2, {"validated": 0})
-                if not j2 or j2[0] != kind:
+                confirmed = True
+                for _ in range(2):      # twice in a row, each on a fresh worker process
+                    again = prun([req], n, q)
+                    mod2 = vlib.run_model(["pr\ttrace\t%d\t%d\t%s" % (n, q, again[0].get("events", ""))])[0]
+                    j2 = judge(ctx, n, q, req, again[0], mod2, {"validated": 0})
+                    if not j2 or j2[0] != kind:
+                        confirmed = False
+                        break
+                    detail = j2[2]
+                if not confirmed:
                     ctx.stat("unconfirmed:" + kind)
                     continue
             key = (kind, n, q)
